@@ -5,7 +5,7 @@ CONSTANTS
   FORWARD_WAKER = TRUE
   READY_DRAINS = TRUE
   FILTER_MODE = "none"
-  CHAIN_MODE = "none"
+  CHAIN_MODE = "chain"
 INVARIANTS TypeOK PrefixInv QueueInv DoneInv
 PROPERTIES Terminates EveryPushDelivered AllDelivered
 CHECK_DEADLOCK FALSE
